@@ -115,6 +115,8 @@ def _fix_alias_members(cls: type[Enum]) -> None:
             new_member = int.__new__(cls, member.value)
             new_member._name_ = name
             new_member._value_ = member.value
+            # Flag needs the definition order of its members to decompose values that are not a member
+            new_member._sort_order_ = len(cls._member_names_)
 
             type.__setattr__(cls, name, new_member)
             cls._member_names_.append(name)
